@@ -500,7 +500,9 @@ func callbacks() {
 			s.EnableMouse(fl...)
 		}, f})
 	}
-	sets = append(sets, fs{"EnableMouse()", func() { s.EnableMouse() }, 7}, fs{"DisableMouse()", func() { s.DisableMouse() }, 0})
+	sets = append(sets, fs{"EnableMouse()", func() { s.EnableMouse() }, 7}, fs{"DisableMouse()", func() { s.DisableMouse() }, 0},
+		// an explicit, empty set of flags enables nothing (it is not the same as giving none)
+		fs{"EnableMouse(0)", func() { s.EnableMouse(0) }, 0}, fs{"EnableMouse(0,0)", func() { s.EnableMouse(0, 0) }, 0})
 	btnOf := map[int]tcell.ButtonMask{0: tcell.ButtonNone, 1: tcell.Button1, 2: tcell.Button3, 3: tcell.Button2}
 	type pair struct{ prev, cur fs }
 	var pairs []pair
@@ -616,9 +618,10 @@ func step(f func()) bool {
 }
 
 var lifecycleQuick = true
+var lifePart, lifeParts = 0, 1
 
 func lifecycle() {
-	calls := []string{"Suspend", "Resume", "SetSize", "SetSizeSame", "Fini"}
+	calls := []string{"Suspend", "Resume", "SetSize", "SetSizeSame", "Fini", "Show"}
 	var seqs [][]int
 	var gen func(pre []int)
 	gen = func(pre []int) {
@@ -653,6 +656,9 @@ func lifecycle() {
 	}
 	for ci, cfg := range configs {
 		for qi, sq := range seqs {
+			if (qi+ci)%lifeParts != lifePart {
+				continue // another process of this run takes it
+			}
 			if lifecycleQuick && ci != 0 && ci != len(configs)-1 && qi%5 != ci {
 				continue // quick: every sequence plain and with everything enabled, a fifth with each single mode
 			}
@@ -668,8 +674,14 @@ func lifecycle() {
 			size := 0
 			for _, c := range sq {
 				names = append(names, calls[c])
+				// js/wasm has no preemption: a call that spins takes the whole program with it, so
+				// the parent is told what is about to be called
+				fmt.Println("WASMCHK-STEP " + strings.Join(names, ","))
 				returned := step(func() {
 					switch calls[c] {
+					case "Show":
+						s.SetContent(1, 1, 'x', nil, tcell.StyleDefault)
+						s.Show()
 					case "Suspend":
 						_ = s.Suspend()
 					case "Resume":
@@ -731,7 +743,7 @@ func main() {
 		lifecycleQuick = false
 	}
 	// part p of n: every js.FuncOf of a screen stays referenced, so a long run is split
-	// over several processes (part 0 also runs the lifecycle and callback sweeps)
+	// over several processes (the lifecycle sequences are shared out the same way; part 0 also runs the callback sweep)
 	part, nparts := 0, 1
 	if len(os.Args) > 4 {
 		part, _ = strconv.Atoi(os.Args[3])
@@ -740,8 +752,9 @@ func main() {
 	if nparts < 1 {
 		nparts = 1
 	}
+	lifePart, lifeParts = part, nparts
+	lifecycle()
 	if part == 0 {
-		lifecycle()
 		callbacks()
 	}
 	for hi := 0; hi < nh; hi++ {
